@@ -18,10 +18,10 @@ import (
 // c09Case is one run of the real binary.
 type c09Case struct {
 	Label  string            `json:"label"`
-	Args   []string          `json:"args"`            // {DIR} is replaced by a private temp directory
+	Args   []string          `json:"args"` // {DIR} is replaced by a private temp directory
 	Stdin  string            `json:"stdin"`
-	Files  map[string]string `json:"files,omitempty"` // written into {DIR}
-	Expect string            `json:"expect"`          // any | fail | ok
+	Files  map[string]string `json:"files,omitempty"`     // written into {DIR}
+	Expect string            `json:"expect"`              // any | fail | ok
 	Pipe   []string          `json:"pipe_into,omitempty"` // if the first command succeeds its stdout is fed to this one, which must fail
 	OutArg bool              `json:"with_output_file,omitempty"`
 	Shell  string            `json:"shell,omitempty"`
@@ -29,7 +29,7 @@ type c09Case struct {
 
 func init() {
 	register(&Prop{ID: "C09", Run: runC09, Replay: map[string]func(*Env, json.RawMessage){
-		"cli": func(e *Env, raw json.RawMessage) { c := decode[c09Case](raw); c09Run(e, &c) },
+		"cli":      func(e *Env, raw json.RawMessage) { c := decode[c09Case](raw); c09Run(e, &c) },
 		"text-lib": func(e *Env, raw json.RawMessage) { c09TextLib(e, decode[textCase](raw).Text) },
 		"yaml-lib": func(e *Env, raw json.RawMessage) { c09YAMLLib(e, decode[textCase](raw).Text) },
 	}})
@@ -55,6 +55,10 @@ func shQuote(s string) string { return "'" + strings.ReplaceAll(s, "'", `'\''`) 
 
 // c09Run runs the case and applies the failure-shape oracle.
 func c09Run(e *Env, c *c09Case) {
+	if cli.TooManyHangs() {
+		e.R.NotExhaustive("stopped feeding the binary after 12 reproducible hangs")
+		return
+	}
 	e.R.Eval(1)
 	dir := filepath.Join(e.Scratch, fmt.Sprintf("c09-%d", atomic.AddInt64(&c09Dir, 1)))
 	if err := os.MkdirAll(dir, 0o755); err != nil {
@@ -449,14 +453,17 @@ func runC09(e *Env) {
 	nonsense("unknown-target/flag", "", []string{"info", "chord", "describe", "-t", ""}, nil)
 	// inconsistent dictionaries on every command that builds the dictionary
 	badDicts := map[string]string{
-		"dangling-attribute": "- name: UserA\n  meta:\n    display: ua\n  attributes:\n    - Nope\n",
-		"dangling-extends":   "- name: UserA\n  meta:\n    display: ua\n  extends: Nope\n",
-		"cyclic-extends-1":   "- name: UserA\n  meta:\n    display: ua\n  extends: UserA\n",
-		"cyclic-extends-2":   "- name: UserA\n  meta:\n    display: ua\n  extends: ub\n- name: UserB\n  meta:\n    display: ub\n  extends: UserA\n",
-		"unnamed":            "- name: \"\"\n  meta:\n    display: ua\n  attributes:\n    - Major6\n",
-		"no-content":         "- name: UserA\n  meta:\n    display: ua\n",
-		"not-a-list":         "name: UserA\n",
-		"binary":             "\x00\x01\xff\xfe",
+		"dangling-attribute":    "- name: UserA\n  meta:\n    display: ua\n  attributes:\n    - Nope\n",
+		"dangling-extends":      "- name: UserA\n  meta:\n    display: ua\n  extends: Nope\n",
+		"cyclic-extends-1":      "- name: UserA\n  meta:\n    display: ua\n  extends: UserA\n",
+		"cyclic-extends-2":      "- name: UserA\n  meta:\n    display: ua\n  extends: ub\n- name: UserB\n  meta:\n    display: ub\n  extends: UserA\n",
+		"cyclic-extends-tail-1": "- name: Tail\n  meta:\n    display: tl\n  extends: Self\n- name: Self\n  meta:\n    display: sf\n  extends: Self\n",
+		"cyclic-extends-tail-2": "- name: Tail\n  meta:\n    display: tl\n  extends: LoopA\n- name: LoopA\n  meta:\n    display: la\n  extends: LoopB\n- name: LoopB\n  meta:\n    display: lb\n  extends: la\n",
+		"cyclic-extends-3":      "- name: A1\n  meta:\n    display: a1\n  extends: A2\n- name: A2\n  meta:\n    display: a2\n  extends: A3\n- name: A3\n  meta:\n    display: a3\n  extends: a1\n",
+		"unnamed":               "- name: \"\"\n  meta:\n    display: ua\n  attributes:\n    - Major6\n",
+		"no-content":            "- name: UserA\n  meta:\n    display: ua\n",
+		"not-a-list":            "name: UserA\n",
+		"binary":                "\x00\x01\xff\xfe",
 	}
 	for name, d := range badDicts {
 		for _, cmd := range [][]string{{"write"}, {"write", "event"}, {"write", "conv", "-c", "cmt"}, {"info", "chord", "describe", "-t", "C"}, {"info", "attr", "describe", "-t", "Major3"}} {
